@@ -100,6 +100,11 @@ def h_container(cfg):
     obs('level', c.level)
 
 
+class FItem:
+    def __init__(self, v):
+        self.v = v
+
+
 def h_store(cfg):
     from onl.sim import Environment, Store, PriorityStore, FilterStore, PriorityItem
     env = Environment()
@@ -120,7 +125,7 @@ def h_store(cfg):
                 key[id(item)] = pr
             elif kind == 'filter':
                 x = sym_int('x%d' % k)
-                item = x
+                item = FItem(x)            # a distinct object per item (equal values must stay distinguishable)
                 key[id(item)] = x
             else:
                 item = ('it', k)
@@ -129,7 +134,7 @@ def h_store(cfg):
         elif op == 'get':
             if kind == 'filter':
                 th = sym_int('th%d' % k)
-                ev = st.get(lambda x, th=th: x >= th)
+                ev = st.get(lambda it, th=th: it.v >= th)
                 reqs.append({'k': k, 'kind': 'get', 'ev': ev, 'th': th, 'cancelled': False, 'granted': False})
             else:
                 ev = st.get()
